@@ -155,7 +155,7 @@ def map_phase(ctx, part):
     for ci, (m, a) in enumerate(combos):
         cfgp = ctx.path("xcfg-%d.json" % ci)
         json.dump({"index": {"metric": m, "algo": a, "M": 1, "MMax": 1, "MMax0": 2}, "np": 3, "dim": 3, "keys": ["a"],
-                   "vals": 3, "ks": [1, 3], "nids": 3, "maxlvl": 1, "full": "last"}, open(cfgp, "w"))
+                   "vals": 4, "ks": [1, 3], "nids": 3, "maxlvl": 1, "full": "last"}, open(cfgp, "w"))
         trace = ctx.path("xtrace-%d.ndjson" % ci)
         ctx.run([part, "explore", cfgp, hist_path, trace, str(ctx.seed), "12" if quick else "40"], timeout=1500)
         txt = write_rank_module(ctx, part, m, 3, 3)
@@ -330,7 +330,7 @@ def random_phase(ctx, part):
     for i, (m, a, M, mm, mm0, ef, efc, np_, nids, maxlvl) in enumerate(RANDOM_CFGS):
         cfgp = ctx.path("rcfg-%d.json" % i)
         json.dump({"index": {"metric": m, "algo": a, "M": M, "MMax": mm, "MMax0": mm0, "ef": ef, "efc": efc},
-                   "np": np_, "dim": 4, "keys": ["a", "b"], "vals": 3, "ks": [1, 3, nids], "full": "some",
+                   "np": np_, "dim": 4, "keys": ["a", "b"], "vals": 4, "ks": [1, 3, nids], "full": "some",
                    "nids": nids, "maxlvl": maxlvl}, open(cfgp, "w"))
         trace = ctx.path("rtrace-%d.ndjson" % i)
         rank = ctx.path("rrank-%d.tla" % i)
